@@ -150,6 +150,13 @@ func (f *Frame) specCall(st *State, e *ast.CallExpr, kind string) []*Term {
 		ret := lit.Body.List[0].(*ast.ReturnStmt)
 		body := f.expr(work, ret.Results[0])
 		c.inQuant--
+		if c.inQuant == 0 && len(c.pendingWF) > 0 {
+			pw := c.pendingWF
+			c.pendingWF = nil
+			for _, t := range pw {
+				f.tableWF(st, t)
+			}
+		}
 		// typing facts for bound variables
 		var wf []*Term
 		i := 0
@@ -181,6 +188,25 @@ func (f *Frame) specCall(st *State, e *ast.CallExpr, kind string) []*Term {
 	case kind == "allocated":
 		v := f.expr(st, e.Args[0])
 		return []*Term{Select(c.heapGet(st, "ALLOC", ArrSort(SInt, SBool)), v)}
+	case kind == "itPos" || kind == "itLen":
+		v := f.expr(st, e.Args[0])
+		if v.Sort == SIfc {
+			v = ifaceRef(v)
+		}
+		h := c.heapGet(st, map[string]string{"itPos": "IT!pos", "itLen": "IT!len"}[kind], ArrSort(SInt, SInt))
+		return []*Term{Select(h, v)}
+	case kind == "itElem":
+		v := f.expr(st, e.Args[0])
+		if v.Sort == SIfc {
+			v = ifaceRef(v)
+		}
+		j := f.expr(st, e.Args[1])
+		h2 := c.heapGet(st, "IT!elems", ArrSort(SInt, ArrSort(SInt, SInt)))
+		h4 := c.heapGet(st, "IT!tag", ArrSort(SInt, SInt))
+		return []*Term{App("mkI", SIfc, Select(h4, v), Select(Select(h2, v), j))}
+	case kind == "commits":
+		h := c.heapGet(st, "TX!ncommits", ArrSort(SInt, SInt))
+		return []*Term{Select(h, IntLit(0))}
 	case kind == "committed" || kind == "aborted":
 		v := f.expr(st, e.Args[0])
 		if v.Sort == SIfc {
@@ -518,10 +544,10 @@ func (f *Frame) contractCall(st *State, e *ast.CallExpr, ct *Contract, recv *Ter
 		}
 		nw := c.fresh("cl!"+h, hs)
 		st.heap[h] = nw
-		if whole || strings.HasPrefix(h, "IT!") {
+		if whole || strings.HasPrefix(h, "IT!") || strings.HasPrefix(h, "TX!") {
 			continue
 		}
-		if strings.HasPrefix(h, "T!") || strings.HasPrefix(h, "TX!") {
+		if strings.HasPrefix(h, "T!") {
 			if !listed {
 				st.heap[h] = old // tables not listed are unchanged (callee's frame obligation)
 			}
@@ -682,7 +708,7 @@ func (f *Frame) checkFrame(st *State, entry *State, ct *Contract, ri int, where 
 		if !ok {
 			old = c.heapInit(h)
 		}
-		if same(cur, old) || h == "ALLOC" || strings.HasPrefix(h, "IT!") {
+		if same(cur, old) || h == "ALLOC" || strings.HasPrefix(h, "IT!") || strings.HasPrefix(h, "TX!") {
 			continue
 		}
 		whole := false
